@@ -159,7 +159,7 @@ Example parsed_values_in_range_ex :
   let spec := mkSpec 58 DW_FORM_implicit_const (-5) in
   (-9223372036854775808 <= at_implicit spec < 9223372036854775808)%Z /\
   parse_attribute true (mkEnc 5 false 8 false) spec [x01]%byte = Ok (VSdata (-5), [x01]%byte).
-Proof. split; [split; reflexivity|reflexivity]. Qed.
+Proof. cbn [at_implicit]. split; [split; [discriminate|reflexivity]|reflexivity]. Qed.
 
 Theorem parsed_values_in_range : forall dbg e spec bs v r,
   (-9223372036854775808 <= at_implicit spec < 9223372036854775808)%Z ->
